@@ -5,7 +5,7 @@ import ast
 import re
 
 from ..core import AnalysisError, own_nodes, short, unparse
-from ..rules import match, exa, fmt
+from ..rules import match, exa, fmt, shape
 from . import common
 
 EXPLANATION = (
@@ -20,6 +20,7 @@ EXPLANATION = (
   " (FIN-dropcount) for every rate counted in drop-frame mode, 9 x (labels dropped per minute) equals the label excess per ten minutes to within 1/20 frame;"
   " (FIN-dropframe) from_frames / to_frames agree with SMPTE ST 12-1 labels around every minute boundary of the first 22 minutes and the hour (30000/1001, 60000/1001) and are inverse there;"
   ' (DEP-round) ClockTime.from_seconds derives hours, minutes, seconds and milliseconds from one rounded value; (EXA-offset) SmpteTimeCode.to_temporal_offset returns Fraction(frames, rate) exactly;'
+  ' (PURE-query) the query methods of the time code classes (to_*, get_*, is_*, printing and comparison) assign no attribute of the object, so frame counts and offsets never come from a memo that a later add_frames leaves stale;'
 )
 RULE_TEXT = "EXA: one instance per truncation / time sink call site; FMT: one instance per printer branch x separator choice x sample vector"
 UNDECIDED = ["frames -> label -> frames identity", "label validity and drop-frame label skipping", "monotonicity of successive frame counts",
@@ -307,4 +308,6 @@ def run(ctx):
   check_fmt(ctx)
   check_drop_count(ctx)
   check_drop_frame_labels(ctx)
+  nq = shape.check_pure_queries(ctx, [c for c in ix.classes.values() if c.module.name == "ttconv.time_code"])
+  ctx.floor("PURE-query", "query methods of the time code classes", nq, 10)
   common.check_history_independence(ctx, ["ttconv.time_code", "ttconv.imsc.attributes", "ttconv.imsc.utils", "ttconv.srt.paragraph", "ttconv.vtt.cue"])
